@@ -3,6 +3,9 @@ from fractions import Fraction
 from .common import *  # noqa
 
 KEYS = {"flow_rates"}
+# observations whose model value is the property's specified value (a disagreement there is a failing input);
+# on the others the correspondence supports the tie and the oracle searches for the failing input
+SPEC_KEYS = {"flow_rates"}
 
 
 def lattice(xs):
